@@ -534,9 +534,9 @@ var ProfileC18Params = func() *Profile {
 		if g.Bool("pg/knob?") {
 			e = GenGovKnob(h, g)
 		} else {
-			drawModeFields = true
+			drawModeFields, moderateParams = true, false
 			e = GenParamChange(h, g)
-			drawModeFields = false
+			drawModeFields, moderateParams = false, true
 		}
 		if e != nil {
 			return []EnvAction{*e}
